@@ -198,6 +198,23 @@ func SketchEstimate[K comparable, V any](s *Store[K, V], key K) uint {
 	return s.policy.sketch.Estimate(s.hasher.Hash(key))
 }
 
+// SketchCounters returns, for key, the four frequency counters it maps to (as table positions)
+// and their current values. Two keys that share a position share that counter.
+//
+//go:norace
+func SketchCounters[K comparable, V any](s *Store[K, V], key K) (pos [4]uint32, val [4]uint) {
+	sk := s.policy.sketch
+	h := s.hasher.Hash(key)
+	block := (h & uint64(sk.BlockMask)) << 3
+	hc := rehash(h)
+	for i := uint8(0); i < 4; i++ {
+		idx, off := sk.indexOf(hc, block, i)
+		pos[i] = uint32(idx)*16 + uint32(off)
+		val[i] = uint(sk.Table[idx]>>(off<<2)) & 0xf
+	}
+	return
+}
+
 //go:norace
 func ShardIndex[K comparable, V any](s *Store[K, V], key K) int {
 	_, i := s.index(key)
